@@ -1,9 +1,11 @@
 (* C01 -- property theorems only. Statements are about the model of tensorly/base.py
-   (Model/Base.v), for every element type A, every shape with non-empty index space,
-   every mode. *)
-From Coq Require Import List Arith Permutation.
+   (Model/Base.v, Model/BaseExt.v), for every element type A, every shape (size-1 and size-0
+   modes included; where NumPy's reshape(-1) rejects an empty mode the exact guard is stated and the
+   rejection is a theorem), every signed mode. *)
+From Coq Require Import List Arith Permutation ZArith.
 From Coq Require Import Sorted.
-From TLV Require Import Base.Shape Base.PyList Base.Tensor Model.Base Proofs.BaseProofs Proofs.BaseProofs2.
+From TLV Require Import Base.Shape Base.PyList Base.Tensor Model.Base Model.BaseExt
+  Proofs.BaseProofs Proofs.BaseProofs2 Proofs.BaseProofs3 Proofs.BaseProofs4 Proofs.BaseProofs5 Proofs.BaseProofs6.
 Import ListNotations.
 
 Theorem C01_fold_unfold : forall (A : Type) (d : A) (t : tensor A) (m : nat),
@@ -92,6 +94,174 @@ Theorem C01_transpose_Permutation : forall (A : Type) (d : A) (t : tensor A) (p 
   wf t -> is_permb (ndim t) p = true -> Permutation (data (transpose d p t)) (data t).
 Proof. exact @transpose_Permutation. Qed.
 Print Assumptions C01_transpose_Permutation.
+
+(* ---------- every shape: exact success domain, size-0 modes ---------- *)
+Theorem C01_unfold_ok_iff : forall (A : Type) (d : A) (t : tensor A) (m : nat),
+  (exists u, unfold d t m = Ok u) <-> m < ndim t /\ nth m (shape t) 0 <> 0.
+Proof. exact @unfold_ok_iff. Qed.
+Print Assumptions C01_unfold_ok_iff.
+
+Theorem C01_unfold_empty_mode_rejected : forall (A : Type) (d : A) (t : tensor A) (m : nat),
+  m < ndim t -> nth m (shape t) 0 = 0 -> unfold d t m = Err.
+Proof. exact @unfold_empty_mode_rejected. Qed.
+Print Assumptions C01_unfold_empty_mode_rejected.
+
+Theorem C01_fold_unfold_every_shape : forall (A : Type) (d : A) (t : tensor A) (m : nat),
+  wf t -> m < ndim t -> nth m (shape t) 0 <> 0 ->
+  rbind (unfold d t m) (fun u => fold d u m (shape t)) = Ok t.
+Proof. exact @fold_unfold_gen. Qed.
+Print Assumptions C01_fold_unfold_every_shape.
+
+Theorem C01_unfold_layout_every_shape : forall (A : Type) (d : A) (t : tensor A) (m : nat) (u : tensor A) (idx : list nat),
+  wf t -> unfold d t m = Ok u -> inb (shape t) idx ->
+  shape u = [nth m (shape t) 0; prod (remove_nth m (shape t))] /\
+  get d u [nth m idx 0; ravel (remove_nth m (shape t)) (remove_nth m idx)] = get d t idx.
+Proof. exact @unfold_layout_gen. Qed.
+Print Assumptions C01_unfold_layout_every_shape.
+
+Theorem C01_unfold_Permutation_every_shape : forall (A : Type) (d : A) (t : tensor A) (m : nat) (u : tensor A),
+  wf t -> unfold d t m = Ok u -> Permutation (data u) (data t).
+Proof. exact @unfold_Permutation_gen. Qed.
+Print Assumptions C01_unfold_Permutation_every_shape.
+
+(* unfold after fold *)
+Theorem C01_unfold_fold : forall (A : Type) (d : A) (u : tensor A) (m : nat) (s : list nat),
+  wf u -> m < length s -> nth m s 0 <> 0 -> shape u = [nth m s 0; prod (remove_nth m s)] ->
+  rbind (fold d u m s) (fun t => unfold d t m) = Ok u.
+Proof. exact @unfold_fold. Qed.
+Print Assumptions C01_unfold_fold.
+
+(* ---------- signed (Python int) modes ---------- *)
+Theorem C01_unfold_signed_mode : forall (A : Type) (d : A) (t : tensor A),
+  (forall m, m < ndim t -> unfold_z d t (Z.of_nat m) = unfold d t m) /\
+  (forall j, 0 < j <= ndim t -> unfold_z d t (- Z.of_nat j) = unfold d t (ndim t - j)) /\
+  (forall z, (z < - Z.of_nat (ndim t) \/ Z.of_nat (ndim t) <= z)%Z -> unfold_z d t z = Err).
+Proof. exact @unfold_z_spec. Qed.
+Print Assumptions C01_unfold_signed_mode.
+
+Theorem C01_fold_signed_mode : forall (A : Type) (d : A) (u : tensor A) (s : list nat),
+  (forall m, m < length s -> fold_z d u (Z.of_nat m) s = fold d u m s) /\
+  (forall j, 0 < j <= length s -> fold_z d u (- Z.of_nat j) s = fold d u (length s - j) s) /\
+  (forall z, (z < - Z.of_nat (length s) \/ Z.of_nat (length s) <= z)%Z -> fold_z d u z s = Err).
+Proof. exact @fold_z_spec. Qed.
+Print Assumptions C01_fold_signed_mode.
+
+Theorem C01_fold_unfold_signed : forall (A : Type) (d : A) (t u : tensor A) (z : Z),
+  wf t -> unfold_z d t z = Ok u -> fold_z d u z (shape t) = Ok t.
+Proof. exact @fold_unfold_z. Qed.
+Print Assumptions C01_fold_unfold_signed.
+
+Theorem C01_partial_signed_mode : forall (A : Type) (d : A) (t : tensor A) (m : nat) (s : list nat) (sb se : nat) (rav : bool),
+  partial_unfold_z d t (Z.of_nat m) sb se rav = partial_unfold d t m sb se rav /\
+  partial_fold_z d t (Z.of_nat m) s sb se = partial_fold d t m s sb se.
+Proof. exact @partial_z_spec. Qed.
+Print Assumptions C01_partial_signed_mode.
+
+Theorem C01_partial_fold_unfold_signed : forall (A : Type) (d : A) (t u : tensor A) (z : Z) (sb se : nat) (rav : bool),
+  wf t -> partial_unfold_z d t z sb se rav = Ok u -> partial_fold_z d u z (shape t) sb se = Ok t.
+Proof. exact @partial_fold_unfold_z. Qed.
+Print Assumptions C01_partial_fold_unfold_signed.
+
+Theorem C01_partial_unfold_signed_Permutation : forall (A : Type) (d : A) (t u : tensor A) (z : Z) (sb se : nat) (rav : bool),
+  wf t -> partial_unfold_z d t z sb se rav = Ok u -> Permutation (data u) (data t).
+Proof. exact @partial_unfold_z_Permutation. Qed.
+Print Assumptions C01_partial_unfold_signed_Permutation.
+
+Theorem C01_matricize_signed_modes : forall (A : Type) (d : A) (t : tensor A) (rows cols : list nat),
+  matricize_z d t (map Z.of_nat rows) (Some (map Z.of_nat cols)) = matricize d t rows (Some cols) /\
+  matricize_z d t (map Z.of_nat rows) None = matricize d t rows None.
+Proof. exact @matricize_z_spec. Qed.
+Print Assumptions C01_matricize_signed_modes.
+
+Theorem C01_matricize_negative_rejected : forall (A : Type) (d : A) (t : tensor A) (rows : list Z) (cols : option (list Z)) (z : Z),
+  (z < 0)%Z -> In z (rows ++ match cols with Some c => c | None => [] end) -> matricize_z d t rows cols = Err.
+Proof. exact @matricize_z_negative_rejected. Qed.
+Print Assumptions C01_matricize_negative_rejected.
+
+(* ---------- the backend layer: generic Backend.moveaxis; inverse transposition ---------- *)
+Theorem C01_moveaxis_generic : forall (A : Type) (d : A) (t : tensor A) (a b : nat),
+  a < ndim t -> b < ndim t -> moveaxis_generic d t a b = moveaxis d t a b.
+Proof. exact @moveaxis_generic_eq. Qed.
+Print Assumptions C01_moveaxis_generic.
+
+Theorem C01_transpose_inverse : forall (A : Type) (d : A) (t : tensor A) (p : list nat),
+  wf t -> is_permb (ndim t) p = true -> transpose d (inv_perm p) (transpose d p t) = t.
+Proof. exact @transpose_inverse. Qed.
+Print Assumptions C01_transpose_inverse.
+
+(* matricize is undone by a reshape to the permuted shape and the inverse transposition *)
+Theorem C01_matricize_inverse : forall (A : Type) (d : A) (t u : tensor A) (rows : list nat) (cols : option (list nat)),
+  wf t -> matricize d t rows cols = Ok u ->
+  let p := rows ++ match cols with Some c => c | None => complement (ndim t) rows end in
+  transpose d (inv_perm p) (reshape (permute 0 p (shape t)) u) = t.
+Proof. exact @matricize_inverse. Qed.
+Print Assumptions C01_matricize_inverse.
+
+(* ---------- documented layout of the partial variants; their exact success domain ---------- *)
+Theorem C01_partial_unfold_layout : forall (A : Type) (d : A) (t u : tensor A) (m sb se : nat) (rav : bool) (L M T : list nat),
+  wf t -> sb + m + se < ndim t -> partial_unfold d t m sb se rav = Ok u ->
+  length L = sb -> length T = se -> inb (shape t) (L ++ M ++ T) ->
+  let s := shape t in
+  let mids := firstn (length s - sb - se) (skipn sb s) in
+  let dm := nth m mids 0 in let rs := remove_nth m mids in
+  let im := nth m M 0 in let ri := remove_nth m M in
+  if rav then
+    shape u = firstn sb s ++ [dm * prod rs] ++ lastn se s /\
+    get d u (L ++ [im * prod rs + ravel rs ri] ++ T) = get d t (L ++ M ++ T)
+  else
+    shape u = firstn sb s ++ [dm; prod rs] ++ lastn se s /\
+    get d u (L ++ [im; ravel rs ri] ++ T) = get d t (L ++ M ++ T).
+Proof. exact @partial_unfold_layout. Qed.
+Print Assumptions C01_partial_unfold_layout.
+
+Theorem C01_partial_tensor_to_vec_layout : forall (A : Type) (d : A) (t u : tensor A) (sb se : nat) (L M T : list nat),
+  wf t -> sb + se < ndim t -> partial_tensor_to_vec d t sb se = Ok u ->
+  length L = sb -> length T = se -> inb (shape t) (L ++ M ++ T) ->
+  let s := shape t in
+  let mids := firstn (length s - sb - se) (skipn sb s) in
+  shape u = firstn sb s ++ [prod mids] ++ lastn se s /\
+  get d u (L ++ [ravel mids M] ++ T) = get d t (L ++ M ++ T).
+Proof. exact @partial_tensor_to_vec_layout. Qed.
+Print Assumptions C01_partial_tensor_to_vec_layout.
+
+Theorem C01_partial_unfold_ok_iff : forall (A : Type) (d : A) (t : tensor A) (m sb se : nat) (rav : bool),
+  sb + m + se < ndim t ->
+  let s := shape t in
+  (exists u, partial_unfold d t m sb se rav = Ok u) <->
+  prod (firstn sb s) * (if rav then 1 else nth (m + sb) s 0) * prod (lastn se s) <> 0.
+Proof. exact @partial_unfold_ok_iff. Qed.
+Print Assumptions C01_partial_unfold_ok_iff.
+
+Example C01_nonvacuous_partial_layout :
+  let t := mk [2;3;2;2] (seq 0 24) in
+  wf t /\ 1 + 1 + 1 < ndim t /\ inb (shape t) ([1] ++ [2;1] ++ [0]) /\
+  partial_unfold 0 t 1 1 1 true = Ok (mk [2;6;2] [0;1;4;5;8;9;2;3;6;7;10;11;12;13;16;17;20;21;14;15;18;19;22;23]) /\
+  get 0 (mk [2;6;2] [0;1;4;5;8;9;2;3;6;7;10;11;12;13;16;17;20;21;14;15;18;19;22;23]) ([1] ++ [1 * 3 + 2] ++ [0]) = get 0 t [1;2;1;0] /\
+  partial_unfold 0 (mk [2;0;3] []) 1 1 0 false = Ok (mk [2;3;0] []) /\ partial_unfold 0 (mk [2;0;3] []) 0 1 0 false = Err.
+Proof. cbv zeta. unfold wf, ndim. cbn [shape data]. repeat split; try (vm_compute; reflexivity); vm_compute; auto with arith. Qed.
+
+(* ---------- "no entry is rounded or re-typed": the functions commute with every entry-wise map ---------- *)
+Theorem C01_naturality : forall (A B : Type) (f : A -> B) (d : A) (t : tensor A),
+  tensor_to_vec (tmap f t) = rmap (tmap f) (tensor_to_vec t) /\
+  (forall s, vec_to_tensor (tmap f t) s = rmap (tmap f) (vec_to_tensor t s)) /\
+  (forall m, unfold (f d) (tmap f t) m = rmap (tmap f) (unfold d t m)) /\
+  (forall m s, fold (f d) (tmap f t) m s = rmap (tmap f) (fold d t m s)) /\
+  (forall m sb se rav, partial_unfold (f d) (tmap f t) m sb se rav = rmap (tmap f) (partial_unfold d t m sb se rav)) /\
+  (forall m s sb se, partial_fold (f d) (tmap f t) m s sb se = rmap (tmap f) (partial_fold d t m s sb se)) /\
+  (forall rows cols, matricize (f d) (tmap f t) rows cols = rmap (tmap f) (matricize d t rows cols)).
+Proof. exact @naturality. Qed.
+Print Assumptions C01_naturality.
+
+(* non-vacuity of the size-0 and signed-mode statements *)
+Example C01_nonvacuous_empty :
+  let t := mk [0;3] (@nil nat) in
+  wf t /\ unfold 0 t 0 = Err /\ unfold 0 t 1 = Ok (mk [3;0] []) /\ fold 0 (mk [3;0] []) 1 [0;3] = Ok t /\
+  unfold_z 0 (mk [2;3] (seq 0 6)) (-1) = Ok (mk [3;2] [0;3;1;4;2;5]) /\
+  unfold_z 0 (mk [2;3] (seq 0 6)) (-3) = Err /\
+  matricize 0 (mk [2;3] (seq 0 6)) [1] None = Ok (mk [3;2] [0;3;1;4;2;5]) /\
+  transpose 0 (inv_perm [1;0]) (reshape [3;2] (mk [3;2] [0;3;1;4;2;5])) = mk [2;3] (seq 0 6) /\
+  moveaxis_generic 0 (mk [2;3;2] (seq 0 12)) 2 0 = moveaxis 0 (mk [2;3;2] (seq 0 12)) 2 0.
+Proof. cbv zeta. unfold wf. cbn [shape data]. repeat split; vm_compute; reflexivity. Qed.
 
 Example C01_nonvacuous_partial :
   let t := mk [2;3;2;2] (seq 0 24) in
